@@ -9,16 +9,16 @@ BASE_NOTE = ("Trusted base: harness/specmodel (Rust) and pyspec/b3spec.py (Pytho
              "listed tools. Only executions actually produced are covered; evidence lists what was observed.")
 
 CHECKS = {
-    "C01": dict(technique="reference-model monitor (specmodel differential) over a length lattice, forced SIMD levels via hook H1, debug+release builds",
+    "C01": dict(technique="reference-model monitor (specmodel differential) over a length lattice, forced SIMD levels via hook H1, debug+release builds of all three crate flavours, one-at-a-time inputs beyond 2^31 / 2^32 bytes, big-endian and 32-bit targets under Miri (thorough)",
                 text="Every one-shot call on an exhaustive prefix range, a block/chunk/subtree lattice and seeded random lengths is compared with an independent executable model of the paper; panics are caught per call.",
                 ref="DESIGN.md §5 C01"),
-    "C02": dict(technique="history + executable model monitor: count() after every op, finalize/finalize_xof vs specmodel, clone-before/compare-after purity probe",
+    "C02": dict(technique="history + executable model monitor: count() after every op, finalize/finalize_xof vs specmodel, clone-before/compare-after purity probe, clone_from, single updates beyond 2^31 / 2^32 bytes, asm/intrinsics/pure flavours",
                 text="Thousands of short hostile call histories over every absorbing entry point on 1-4 hashers, each shadowed by a memoising model of the bytes absorbed so far.",
                 ref="DESIGN.md §5 C02"),
 }
 
 CHECKS.update({
-    "C03": dict(technique="history + stream-model monitor over OutputReader ops (fill/read/read_exact/take/set_position/seek/clone) at all forced SIMD levels",
+    "C03": dict(technique="history + stream-model monitor over OutputReader ops (fill/read/read_exact/take/set_position/seek/clone) at all forced SIMD levels in the asm, intrinsics and pure flavours",
                 text="Every read is compared with specmodel's S[p..p+n] and every position with the model position; failing seeks must error and leave the position unchanged; block counters on both sides of 2^32.",
                 ref="DESIGN.md §5 C03"),
     "C09": dict(technique="reference-model monitor over random valid tree decompositions and large-offset subtree CVs; big-int oracle sweeps of the two length helpers",
@@ -30,22 +30,22 @@ CHECKS.update({
 })
 
 CHECKS.update({
-    "C05": dict(technique="kernel-call monitor vs specmodel compression function: every kernel by symbol (C portable, C intrinsics, Unix asm, Windows-GNU asm via ms_abi trampoline, dispatcher under 5 feature masks) and through blake3::platform::Platform in asm/intr/pure crate flavours",
+    "C05": dict(technique="kernel-call monitor vs specmodel compression function: every kernel by symbol (C portable, C intrinsics, Unix asm, Windows-GNU asm via ms_abi trampoline, dispatcher under 5 feature masks) and through blake3::platform::Platform in asm/intr/pure crate flavours; narrow arguments passed with dirty upper bits where the ABI leaves them undefined; the intrinsics kernels with several threads inside them at once",
                 text="Structural parameters (block_len x flags, num_inputs x blocks x increment, xof block counts) are enumerated, data/counter classes/alignments seeded; each output is compared bit-exactly with the specification's compression function.",
                 ref="DESIGN.md §5 C05"),
-    "C06": dict(technique="C op-script API histories (init variants, update splits, finalize/finalize_seek, reset, struct copy) under every g_cpu_features mask in assembly and intrinsics builds, expected bytes from specmodel with the Rust crate as third voice; memcmp state monitor around finalize",
+    "C06": dict(technique="C op-script API histories (init variants, update splits, finalize/finalize_seek, reset, struct copy) under every g_cpu_features mask in assembly and intrinsics builds, expected bytes from specmodel with the Rust crate as third voice; memcmp state monitor around finalize; size-class probes: one update / one finalize call moving more than 2^32 bytes",
                 text="blake3_hasher histories are executed by the C driver and every finalize output S[seek..seek+len] is compared with the model; finalize must leave the object bytewise unchanged, reset must equal a fresh init on all live fields, the two derive-key initialisers must agree.",
                 ref="DESIGN.md §5 C06"),
-    "C07": dict(technique="guard pages + exact-window canaries + read-only/shadowed inputs around every native call, register-sentinel trampolines (SysV and Win64) for every assembly entry point, ASan+UBSan builds, valgrind memcheck (<= AVX2), Miri on the Rust intrinsics and API histories",
+    "C07": dict(technique="guard pages + exact-window canaries + read-only/shadowed inputs around every native call, register-sentinel trampolines (SysV and Win64) for every assembly entry point, ASan+UBSan builds, valgrind memcheck (<= AVX2), Miri on the Rust intrinsics and API histories; asynchronous-signal storm on the running stack (red-zone / below-rsp discipline); keys and contexts at every address alignment",
                 text="The C05 kernel sweep and the C06 API histories are re-executed with every pointer argument flush against an inaccessible page (either side) or misaligned inside a canary field; faults, canary damage, modified inputs, clobbered callee-saved registers/rsp/DF and tool reports attributed to BLAKE3 frames are violations.",
                 ref="DESIGN.md §5 C07"),
 })
 
 CHECKS.update({
-    "C11": dict(technique="fault-injecting Read implementations (short reads, Interrupted, hard errors, early EOF) with a model of the script as oracle; file lattice around the mmap threshold with three-way agreement + specmodel; special paths; strace evidence of the path taken",
+    "C11": dict(technique="fault-injecting Read implementations (short reads, Interrupted, hard errors, early EOF) with a model of the script as oracle; file lattice around the mmap threshold with three-way agreement + specmodel; special paths incl. a loop block device and FIFO reads interrupted by real signals (no SA_RESTART); sparse files beyond 2^31 / 2^32 bytes; strace evidence of the path taken",
                 text="Scripted readers and real files drive update_reader/update_mmap/update_mmap_rayon/Write; result kind, bytes absorbed before an error, absence of polls after the terminator and the final hash are compared with the model.",
                 ref="DESIGN.md §5 C11"),
-    "C14": dict(technique="decomposed enumeration of the Hash value space (every byte value at every position, all single-bit neighbours), exhaustive enumeration of hex-string mutations and lengths, serde JSON/CBOR round trips, byte-level oracle",
+    "C14": dict(technique="decomposed enumeration of the Hash value space (every byte value at every position, all single-bit neighbours), exhaustive enumeration of hex-string mutations and lengths, multi-lane cancelling differences, serde JSON/CBOR and a length-prefixed non-self-describing binary format, byte-level oracle",
                 text="All conversions and the three equality impls are checked against byte-level definitions; the finite hex-mutation and length spaces are enumerated completely.",
                 ref="DESIGN.md §5 C14"),
     "C15": dict(technique="reference_impl histories vs specmodel and the optimized crate; exhaustive recomputation of every field of test_vectors.json by specmodel and, independently, by pyspec",
@@ -54,7 +54,7 @@ CHECKS.update({
     "C16": dict(technique="twin-execution monitor: histories through every RustCrypto trait method interleaved with inherent calls, outputs and post-state vs specmodel; HMAC from the definition; guts API vs specmodel chunk/parent nodes",
                 text="After every trait call the instance must behave like a hasher of the model's bytes (resetting variants included); guts::ChunkState/parent_cv are compared with the model for all counter classes and lengths.",
                 ref="DESIGN.md §5 C16"),
-    "C17": dict(technique="non-interference monitor over Debug output (two secret assignments per public history) + post-zeroize residue scan of raw object bytes against every secret-derived value computed by specmodel, with positive controls",
+    "C17": dict(technique="non-interference monitor over Debug output (two secret assignments per public history) + post-zeroize residue scan of raw object bytes against every secret-derived value computed by specmodel, and a libc free() interposer that scans the heap block of a boxed, zeroized and dropped object as the allocator receives it (wipes removed as dead stores), with positive controls",
                 text="Debug strings must be a function of public data only; after zeroize() no 8-byte window of key, chaining-value, buffered-input or output data may remain anywhere in the object's memory.",
                 ref="DESIGN.md §5 C17"),
 })
@@ -63,17 +63,17 @@ CHECKS.update({
     "C04": dict(technique="configuration-matrix monitor: the C01/C02/C03/C09 reference-model monitors re-executed in every cell of {asm, prefer_intrinsics, pure} x forced {portable, SSE2, SSE4.1, AVX2, AVX-512} (hook H1) x {full, default, no-default features} x {debug, release}; thorough tier cross-checks the hook against the stock no_* feature builds",
                 text="Every cell is compared with the same independent model, so agreement is N-way; evidence lists per cell the platform Platform::detect() reported and the build-script cfgs.",
                 ref="DESIGN.md §5 C04"),
-    "C08": dict(technique="twin-execution monitor under scripted and real schedulers: hook H2 ScriptedJoin (per-split left-first/right-first/threads, injected delays, exhaustive 3^k assignments for small trees), real rayon pools 1..16, C TBB link seam implemented with scripted pthreads; ThreadSanitizer on Rust (-Zbuild-std) and C; Miri with tree borrows and per-shard scheduler seeds",
+    "C08": dict(technique="twin-execution monitor under scripted and real schedulers: hook H2 ScriptedJoin (per-split left-first/right-first/threads, injected delays, exhaustive 3^k assignments for small trees), real rayon pools 1..16, C TBB link seam implemented with scripted pthreads; ThreadSanitizer on Rust (-Zbuild-std) and C; Miri with tree borrows and per-shard scheduler seeds; update_rayon over inputs beyond 2^31 / 2^32 bytes; the file battery of C11 for update_mmap_rayon (incl. reads interrupted by real signals)",
                 text="Serial and parallel hashers fed the same bytes must agree on every observation and with specmodel; the event log yields distinct schedule signatures and true-overlap counts; race detectors watch the same workloads.",
                 ref="DESIGN.md §5 C08",
                 note=BASE_NOTE + " c/blake3_tbb.cpp itself cannot be compiled here (oneTBB absent): the property is decided for blake3.c's side of the seam and the seam's contract."),
-    "C12": dict(technique="black-box CLI monitor on the real b3sum binary (built from the unmodified main.rs) with pyspec as oracle: hashing invocations over flag combinations, --check invocations against a model of generated checkfiles (report lines, failure count, exit status)",
+    "C12": dict(technique="black-box CLI monitor on the real b3sum binary (built from the unmodified main.rs) with pyspec as oracle: hashing invocations over flag combinations, --check invocations against a model of generated checkfiles (report lines, failure count, exit status); FIFO / sysfs / standard input at a non-zero file offset; 4095-byte all-escaped paths",
                 text="Thousands of invocations; stdout is compared byte for byte with the model's S[seek..seek+length]; for --check the expected OK/FAILED lines in order, the failure count and exit status 0 iff no bad entry.",
                 ref="DESIGN.md §5 C12"),
-    "C13": dict(technique="in-process monitors over the real parse_check_line/filepath_to_string (include! of the unmodified source): every single-character and byte-length-preserving mutation of valid lines + random lines against an existential reference parser; round trip and injectivity over hostile OS path bytes",
+    "C13": dict(technique="in-process monitors over the real parse_check_line/filepath_to_string (include! of the unmodified source): every single-character and byte-length-preserving mutation of valid lines + random lines against an existential reference parser; round trip and injectivity over hostile OS path bytes; end to end through the real binary with hostile file names, separators at every offset and 4095-byte all-escaped paths",
                 text="A parse result must be one of the decompositions the documented format allows, never a panic; printed lines of representable paths must parse back to the same bytes and hash, unrepresentable paths must be rejected, no two paths may collide.",
                 ref="DESIGN.md §5 C13"),
-    "C18": dict(technique="fresh-process barrier workloads: N threads (2..64) whose first calls race on CPU-feature detection, per-thread forced platforms (thread-local hook), every result vs specmodel; C threaded executor against libblake3.so with a writable-segment diff monitor; ThreadSanitizer (Rust and C) and Miri with scheduler seeds",
+    "C18": dict(technique="fresh-process barrier workloads: N threads (2..64) whose first calls race on CPU-feature detection, per-thread forced platforms (thread-local hook), every result vs specmodel; pool-task schedule (hashers driven from tasks of one Rayon pool) with a /proc futex-census deadlock certificate; C threaded executor against libblake3.so (incl. histories opening with 1-20 MiB updates) with a writable-segment diff monitor; ThreadSanitizer (Rust and C) and Miri with scheduler seeds",
                 text="Each thread's histories must give exactly the results they give alone; the only bytes of the C library's writable segments that may change are the detection cache.",
                 ref="DESIGN.md §5 C18"),
 })
